@@ -34,6 +34,8 @@ OPS = {
     "lookup_xy": ("lookup", ("xy",), {"return_metadata": True}),
 }
 
+POST_QUERIES = ["lookup_x", "lookup_xy", "list", "list_prefix_x", "count"]
+
 INITS = {
     "empty": {},
     "x": {"x": (U1, frozenset())},
@@ -104,6 +106,8 @@ def norm(opname, value):
 
 def linearizable(init, history, final_listing):
     """history: list of (thread, opname, call_t, ret_t, result). brute force over all orders respecting real time"""
+    after = [h for h in history if h[0] == "after"]      # asked sequentially once everything else had returned
+    history = [h for h in history if h[0] != "after"]
     n = len(history)
     for perm in itertools.permutations(range(n)):
         ok = True
@@ -122,7 +126,7 @@ def linearizable(init, history, final_listing):
             if mdl.apply(history[idx][1]) != history[idx][4]:
                 ok = False
                 break
-        if ok and (final_listing is None or mdl.listing() == final_listing):
+        if ok and (final_listing is None or mdl.listing() == final_listing) and all(mdl.apply(h[1]) == h[4] for h in after):
             return True
     return False
 
@@ -188,6 +192,21 @@ def make_run(cfg):
             for name, x in sch.errors:
                 V("uncaught-%s" % type(x).__name__, "uncaught %r in %s" % (x, name))
             final = tuple(sorted((n, (u, tuple(sorted(md or ())))) for n, (u, md) in ns.storage.everything(return_metadata=True).items()))
+            if outcome == "quiescent":
+                # afterwards every query is asked once more, sequentially: what the name server answers from now on is part of the state
+                # the concurrent operations left behind (a stale cache entry is as wrong as a stale row)
+                for op in POST_QUERIES:
+                    meth, args, kw = OPS[op]
+                    clock[0] += 1
+                    call_t = clock[0]
+                    try:
+                        res = ("ok", norm(op, getattr(ns, meth)(*args, **kw)))
+                    except errors.NamingError:
+                        res = ("exc", "NamingError")
+                    except Exception as x:
+                        res = ("exc", type(x).__name__)
+                    clock[0] += 1
+                    history.append(("after", op, call_t, clock[0], res))
             internal = [h for h in history if h[4][0] == "exc" and h[4][1] != "NamingError"]
             for h in internal:
                 V("internal-error|%s|%s" % (OPS[h[1]][0], h[4][1]), "operation %s failed with internal error %s; history=%r" % (h[1], h[4][1], history))
@@ -203,9 +222,9 @@ def make_run(cfg):
                     if total != want and not any(h[1] != "remove_x" and OPS[h[1]][0] == "remove" for h in history):
                         V("removal-counts-sum-%d" % total, "concurrent removals of one name reported %d removed entries, expected %d; history=%r" % (total, want, history))
                 if not linearizable(init, history, final):
-                    kinds = "+".join(sorted({OPS[h[1]][0] + ("-prefix" if OPS[h[1]][2].get("prefix") else "") + ("-regex" if OPS[h[1]][2].get("regex") else "") for h in history}))
+                    kinds = "+".join(sorted({OPS[h[1]][0] + ("-prefix" if OPS[h[1]][2].get("prefix") else "") + ("-regex" if OPS[h[1]][2].get("regex") else "") for h in history if h[0] != "after"}))
                     V("not-linearizable|%s" % kinds, "no sequential order explains results and final state; init=%s history=%r final=%r" % (cfg["init"], history, final))
-            res = {"outcome": repr((outcome, tuple(sorted((h[0], h[1], h[4]) for h in history)), final)),
+            res = {"outcome": repr((outcome, tuple(sorted((str(h[0]), h[1], h[4]) for h in history)), final)),
                    "violations": violations,
                    "states": [repr(final)],
                    "sample": {"cfg": cfg, "history": [(h[0], h[1], h[2], h[3], repr(h[4])) for h in history][:6]}}
